@@ -9,13 +9,13 @@ from . import cfgfamily, cfgmachine
 
 def run(tier, seed):
     out = cfgmachine.run_machine(
-        "C11", ["C11_ReturnImplies", "C11_CollectIffRaise", "C11_ItemsHeld"], ["C11_ItemsInserted"], tier, seed, schema="SchemaV", focus="C11",
+        "C11", ["C11_ReturnImplies", "C11_CollectIffRaise", "C11_ItemsHeld", "C11_ItemsLoaded"], ["C11_ItemsInserted"], tier, seed, schema="SchemaV", focus="C11",
         # (every operation followed by validate / load: two levels of the graph are replayed)
         export_depth=2
     )
     # and on the generated schema family: every operation followed by validate() / validate(collect_errors=True)
     fam = cfgfamily.run_family(
-        "C11", ["C11_ReturnImplies", "C11_CollectIffRaise", "C11_ItemsHeld"], ["C11_ItemsInserted"], tier, seed, focus="C11", then="validate"
+        "C11", ["C11_ReturnImplies", "C11_CollectIffRaise", "C11_ItemsHeld", "C11_ItemsLoaded"], ["C11_ItemsInserted"], tier, seed, focus="C11", then="validate"
     )
     return cfgmachine.merge(out, fam)
 
